@@ -30,6 +30,7 @@ import (
 )
 
 const verifWMinLevel = 205 // "max(consistency level, 205) block intervals" of the property statement
+const verifWBlockMs = 16000 // one Alephium block interval in ms (the property statement's unit; deliberately not the package constant)
 
 type verifWHist struct {
 	id      int
@@ -176,7 +177,7 @@ func (h *verifWHist) newBlock(height int32, ageSlot int, plus bool) *verifWBlock
 	if plus {
 		d = 5000
 	}
-	b := &verifWBlock{id: id, hash: verifWBlockHash(id + h.id<<12), ts: h.t0.UnixMilli() - int64(ageSlot)*BlockTimeMs - d, height: height, main: true}
+	b := &verifWBlock{id: id, hash: verifWBlockHash(id + h.id<<12), ts: h.t0.UnixMilli() - int64(ageSlot)*verifWBlockMs - d, height: height, main: true}
 	h.blocks = append(h.blocks, b)
 	h.sim.blocks[b.hash] = b
 	return b
@@ -337,6 +338,10 @@ func (h *verifWHist) newEvent(b *verifWBlock, tx *verifWTx, contract int, class 
 			}
 		case 2:
 			name = "not " + name
+		case 3:
+			if sym != name && len(name) <= 32 {
+				sym, name = name, sym // symbol and name exchanged
+			}
 		}
 		payload = mkAttest(tid, dec, sym, name, r.chance(1, 5))
 		switch r.below(12) {
@@ -470,9 +475,9 @@ func (h *verifWHist) gtDuration(e *verifWEvent) int64 {
 		if l < verifWMinLevel {
 			l = verifWMinLevel
 		}
-		return int64(l) * BlockTimeMs
+		return int64(l) * verifWBlockMs
 	}
-	return int64(e.cl) * BlockTimeMs
+	return int64(e.cl) * verifWBlockMs
 }
 
 // 1 = final at this moment, 0 = not final, -1 = too close to the wall-clock boundary to tell
@@ -1017,12 +1022,19 @@ func (h *verifWHist) run() map[string]interface{} {
 		}
 	}
 	h.pageSize = []int{0, 0, 1, 2, 3, 10, 100}[r.below(7)]
+	if h.fam == "bulk" {
+		// more events than one full page of the node (100): page boundaries inside a poll
+		h.pageSize = 100
+	}
 	// events that exist before the watcher starts (fromIndex is initialised to the current count)
 	pre := r.below(4)
 	h.appendEvents(pre)
 	h.sim.visible = pre
 	h.sim.height = base + int32(r.below(5))
 	h.start()
+	if h.fam == "bulk" {
+		h.appendEvents(100 + r.below(150))
+	}
 	nsteps := 10 + r.below(25)
 	for i := 0; i < nsteps && !h.dead; i++ {
 		if time.Since(h.t0) > 2500*time.Millisecond {
@@ -1219,7 +1231,11 @@ func TestVerifWatcher(t *testing.T) {
 		go func(i int) {
 			defer wg.Done()
 			defer func() { <-sem }()
-			h := verifWNewHist(i, seed, fams[i%len(fams)])
+			fam := fams[i%len(fams)]
+			if i%48 == 7 {
+				fam = "bulk"
+			}
+			h := verifWNewHist(i, seed, fam)
 			var row map[string]interface{}
 			func() {
 				defer func() {
@@ -1228,6 +1244,34 @@ func TestVerifWatcher(t *testing.T) {
 					}
 				}()
 				row = h.run()
+			}()
+			out.emit(row)
+		}(i)
+	}
+	wg.Wait()
+	out.w.Flush()
+	// free-running scenarios: the real Watcher.Run against the simulated node
+	nrun := 24
+	if verifWThorough() {
+		nrun = 120
+	}
+	if s := os.Getenv("VERIF_W_NRUN"); s != "" {
+		nrun, _ = strconv.Atoi(s)
+	}
+	for i := 0; i < nrun; i++ {
+		wg.Add(1)
+		sem <- struct{}{}
+		go func(i int) {
+			defer wg.Done()
+			defer func() { <-sem }()
+			var row map[string]interface{}
+			func() {
+				defer func() {
+					if p := recover(); p != nil {
+						row = map[string]interface{}{"k": "run", "id": i, "harness_panic": fmt.Sprint(p)}
+					}
+				}()
+				row = verifWRunScenario(i, seed)
 			}()
 			out.emit(row)
 		}(i)
